@@ -235,6 +235,17 @@ def fam_c11(R, n):
         ref2 = '(?-u)' + ref
         out.append(dict(family='c11-str-under-nonunicode', src=enum(['#[logos(utf8 = false)]'] + attrs2, ['#[regex(%s, priority = 3)] A,' % rust_str(shape2), '#[regex(%s, priority = 2)] B,' % rust_str(ref2)]),
                         meta=dict(pair=(0, 1), pattern=shape2, reference=ref2)))
+    # the text *around* a reference keeps the mode of the literal it is written in: byte-string patterns whose own text is
+    # sensitive to Unicode mode (a raw high byte, a dot, a negated class, \\w, (?i) on k), with a str or a byte-string subpattern
+    for (sub, sub_is_bytes) in [('[0-9]+', False), ('[0-9]+', True), ('x|yy', False)]:
+        for shape in ['\\xff(?&s0)', '.(?&s0)', '[^a](?&s0)', '(?&s0)\\w', '(?i)k(?&s0)', '(?&s0)\\xc3', '(?&s0)[\\x80-\\xff]+(?&s0)', '\\W(?&s0)']:
+            inl = ('(?-u:%s)' if sub_is_bytes else '(?u:%s)') % sub
+            ref = shape.replace('(?&s0)', inl)
+            attrs = ['#[logos(utf8 = false)]', '#[logos(subpattern s0 = %s)]' % (rust_bytes(sub.encode()) if sub_is_bytes else rust_str(sub))]
+            out.append(dict(family='c11-bytes-around', src=enum(attrs, ['#[regex(%s, priority = 3)] A,' % rust_bytes(shape.encode()), '#[regex(%s, priority = 2)] B,' % rust_bytes(ref.encode())]),
+                            meta=dict(pair=(0, 1), pattern=shape, reference=ref)))
+            out.append(dict(family='c11-bytes-around', src=enum(attrs + ['#[logos(skip(%s, priority = 3))]' % rust_bytes(shape.encode())], ['#[regex(%s, priority = 2)] B,' % rust_bytes(ref.encode())]),
+                            meta=dict(pair=(0, 1), pattern=shape, reference=ref)))
     # undefined names must be rejected
     for pat in ['(?&nope)', 'a(?&s1)', '(?&s0)(?&S0)']:
         attrs = ['#[logos(subpattern s0 = "a")]']
